@@ -18,6 +18,8 @@ package c20
 
 import (
 	"embed"
+	"fmt"
+	"os"
 	"hash/fnv"
 	"sort"
 	"strings"
@@ -66,39 +68,45 @@ var (
 	shrunk      = map[string]int{}
 )
 
-func report(c *kit.Case, fs []finding, src string, o checkOpts, extra map[string]any) {
-	for i, f := range fs {
+// report attributes causes, minimises the first witness of each key and emits the violations.
+func report(c *kit.Case, res outcome, src string, o checkOpts, g *genCtx, extra map[string]any) {
+	if len(res.raw) == 0 {
+		return
+	}
+	for i, f := range classify(src, res, o, g) {
 		w := f.Witness
-		if fullWitness[f.Key] >= 4 {
-			w = map[string]any{"input": clip(src, 400), "note": "full witness attached to earlier occurrences of this key"}
+		if fullWitness[f.Key] >= 3 {
+			w = map[string]any{"input": clip(src, 300), "note": "full witness attached to earlier occurrences of this key"}
 		} else {
 			fullWitness[f.Key]++
 			for k, v := range extra {
 				w[k] = v
 			}
-			if i == 0 && shrunk[f.Key] < 2 && !strings.HasPrefix(f.Key, "C20/valid-source-rejected/") && !strings.HasPrefix(f.Key, "C20/hang/") {
+			if i == 0 && shrunk[f.Key] < 1 && !strings.HasPrefix(f.Key, "C20/hang/") {
 				shrunk[f.Key]++
-				if m := shrink(src, f.Key, o); m != src {
+				if m := shrink(src, res.raw[i], o); m != src {
 					w["minimized_input"] = m
 				}
 			}
 		}
+		c.Obs("oracle_failed_"+strings.SplitN(strings.TrimPrefix(f.Key, "C20/"), "/", 2)[0], 1)
 		c.Viol(f.Key, f.What, w)
 	}
 }
 
-// shrink removes lines, then single tokens separated by blanks, while the same
-// violation key keeps being reported. Bounded by a fixed number of evaluations.
-func shrink(src, key string, o checkOpts) string {
-	o.valid = false
-	budget := 300
+// shrink removes chunks of lines while the same oracle keeps failing with the
+// same structural detail (for a rejected valid source: while the same error
+// class is reported and the text without the suspected lines stays rejected).
+// Bounded by a fixed number of evaluations.
+func shrink(src string, rf rawFinding, o checkOpts) string {
+	budget := 100
 	still := func(s string) bool {
 		if budget <= 0 {
 			return false
 		}
 		budget--
-		for _, f := range check([]byte(s), o).findings {
-			if f.Key == key {
+		for _, f := range check([]byte(s), o).raw {
+			if f.Oracle == rf.Oracle && f.Key == rf.Key && f.Detail == rf.Detail {
 				return true
 			}
 		}
@@ -143,6 +151,30 @@ func TestVerifC20(t *testing.T) {
 	installFatalTrap()
 	corpus := loadCorpus()
 
+	// debugging aid: VERIF_C20_FILE=<path> checks that one file and prints what the oracles say
+	if f := os.Getenv("VERIF_C20_FILE"); f != "" {
+		src, err := os.ReadFile(f)
+		if err != nil {
+			t.Fatal(err)
+		}
+		res := check(src, checkOpts{valid: os.Getenv("VERIF_C20_VALID") != "", degenerate: os.Getenv("VERIF_C20_STRICT") == ""})
+		fmt.Printf("accepted=%v ast_leaves=%d comments=%d\n", res.accepted, res.nStmts, res.nComments)
+		if res.accepted {
+			fmt.Printf("--- formatted\n%s--- end\n", res.formatted)
+		} else if fr := runFormat(src); fr.err != nil {
+			fmt.Printf("error: %v\n", fr.err)
+		}
+		o := checkOpts{valid: os.Getenv("VERIF_C20_VALID") != "", degenerate: os.Getenv("VERIF_C20_STRICT") == ""}
+		for i, fd := range classify(string(src), res, o, nil) {
+			fmt.Printf("FINDING %s\n  %s\n", fd.Key, fd.What)
+			if os.Getenv("VERIF_C20_SHRINK") != "" {
+				fmt.Printf("  minimized:\n%s\n", shrink(string(src), res.raw[i], o))
+			}
+		}
+		kit.End()
+		return
+	}
+
 	// ---- the repository's own .api files: as they are, with CRLF line ends, and re-formatted
 	kit.Run(t, "C20", "corpus", len(corpus)*3, func(c *kit.Case) {
 		cf := corpus[c.Index%len(corpus)]
@@ -161,7 +193,7 @@ func TestVerifC20(t *testing.T) {
 		res := check([]byte(src), o)
 		tally(c, "corpus", res)
 		c.Sig(res.accepted && res.nStmts >= 10, "corpus", hashOf(src))
-		report(c, res.findings, src, o, map[string]any{"file": cf.name, "variant": variant})
+		report(c, res, src, o, nil, map[string]any{"file": cf.name, "variant": variant})
 		if res.accepted {
 			c.Sample("corpus", 1, map[string]any{"file": cf.name, "variant": variant, "bytes": len(src), "ast_leaves": res.nStmts, "comments": res.nComments})
 		}
@@ -199,8 +231,9 @@ func TestVerifC20(t *testing.T) {
 		kit.Run(t, "C20", fam.name, fam.n, func(c *kit.Case) {
 			gc, lc := fam.cfg(c.R)
 			p := generate(c.R, gc)
-			src, comments := render(p, c.R, lc)
-			o := checkOpts{valid: true, degenerate: p.degenerate, comments: comments}
+			seed := c.R.Uint64()
+			src, comments := render(p, seed, lc)
+			o := checkOpts{valid: true, degenerate: p.degenerate}
 			res := check([]byte(src), o)
 			obsFeatures(c, p)
 			tally(c, "valid", res)
@@ -208,7 +241,7 @@ func TestVerifC20(t *testing.T) {
 				c.Obs("comment_"+pc.Where, 1)
 			}
 			c.Sig(res.accepted && res.nStmts >= 10 && (len(comments) > 0 || lc.mode != layCanonical), fam.name, hashOf(src))
-			report(c, res.findings, src, o, map[string]any{"family": fam.name})
+			report(c, res, src, o, &genCtx{p: p, seed: seed, lc: lc, comments: comments}, map[string]any{"family": fam.name})
 			if res.accepted && res.nStmts >= 20 && len(comments) >= 2 {
 				c.Sample(fam.name, 1, map[string]any{"source": clip(src, 1500), "formatted": clip(res.formatted, 1500), "ast_leaves": res.nStmts, "comments": len(comments)})
 			}
@@ -226,12 +259,12 @@ func TestVerifC20(t *testing.T) {
 				src, m2 = mutateBytes(src, c.R)
 				mut += "+" + m2
 			}
-			o := checkOpts{degenerate: true}
+			o := checkOpts{degenerate: true, mutant: true}
 			res := check([]byte(src), o)
 			tally(c, "mutant", res)
 			c.Obs("mutation_"+strings.SplitN(mut, ":", 2)[0], 1)
 			c.Sig(!res.accepted, "mutant", hashOf(src))
-			report(c, res.findings, src, o, map[string]any{"mutation": mut})
+			report(c, res, src, o, nil, map[string]any{"mutation": mut})
 			if !res.accepted && k == 0 {
 				c.Sample("mutants-token", 1, map[string]any{"mutation": mut, "source": clip(src, 600)})
 			}
@@ -250,7 +283,7 @@ func TestVerifC20(t *testing.T) {
 			}
 		} else {
 			p := generate(c.R, genCfg{maxStmts: c.R.Range(1, 4), maxFields: c.R.Range(1, 4), maxDepth: 2, maxTypeNst: 3, oddStrings: c.R.Bool()})
-			base, _ = render(p, c.R, layoutCfg{mode: c.R.Intn(3), commentP: 0.2, multiBlk: true})
+			base, _ = render(p, c.R.Uint64(), layoutCfg{mode: c.R.Intn(2), commentP: 0.2, multiBlk: true})
 		}
 		for k := 0; k < perCase; k++ {
 			src, mut := mutateBytes(base, c.R)
@@ -259,12 +292,12 @@ func TestVerifC20(t *testing.T) {
 				src, m2 = mutateBytes(src, c.R)
 				mut += "+" + m2
 			}
-			o := checkOpts{degenerate: true}
+			o := checkOpts{degenerate: true, mutant: true}
 			res := check([]byte(src), o)
 			tally(c, "mutant", res)
 			c.Obs("mutation_"+strings.SplitN(mut, "+", 2)[0], 1)
 			c.Sig(!res.accepted, "mutant", hashOf(src))
-			report(c, res.findings, src, o, map[string]any{"mutation": mut})
+			report(c, res, src, o, nil, map[string]any{"mutation": mut})
 		}
 		c.Evals(perCase)
 	})
@@ -279,24 +312,31 @@ func TestVerifC20(t *testing.T) {
 		res := check([]byte(src), o)
 		tally(c, "edge", res)
 		c.Sig(!res.accepted, "edge", hashOf(src))
-		report(c, res.findings, src, o, nil)
+		report(c, res, src, o, nil, nil)
 		c.Sample("edge-cases", 1, map[string]any{"source": src, "accepted": res.accepted})
 	})
 
 	// ---- deep nesting / long inputs
-	depths := []int{1, 2, 3, 5, 8, 12, 16, 24, 32, 64, 100, 200, 400}
+	// The formatter's cost grows roughly cubically with struct nesting (a -race
+	// build needs ~6 s for depth 64, minutes for depth 400): depths are chosen so
+	// that every case returns well inside the watchdog.
+	depths := []int{1, 2, 3, 5, 8, 12, 16, 24, 32, 48, 64, 100, 200, 400}
 	if kit.Thorough() {
 		depths = append(depths, 800, 1500, 3000)
 	}
 	kit.Run(t, "C20", "deep-nesting", len(depths)*9, func(c *kit.Case) {
 		d := depths[c.Index%len(depths)]
-		src, shape := deepNesting(c.Index/len(depths), d)
+		shapeIdx := c.Index / len(depths)
+		if shapeIdx == 4 && d > 48 { // struct-depth
+			d = 20 + d%29
+		}
+		src, shape := deepNesting(shapeIdx, d)
 		o := checkOpts{degenerate: true}
 		res := check([]byte(src), o)
 		tally(c, "deep", res)
 		c.Obs("deep_"+shape, 1)
 		c.Sig(true, "deep", shape, d)
-		report(c, res.findings, clip(src, 4000), o, map[string]any{"shape": shape, "depth": d})
+		report(c, res, src, o, nil, map[string]any{"shape": shape, "depth": d})
 	})
 
 	kit.End()
